@@ -61,9 +61,12 @@ def server_conf(world, pre, storage_type="multifilesystem"):
             "storage": {"type": storage_type, "predefined_collections": predef_json(pre)}}
 
 
-def owner_world(rng, open_reads=False):
-    """Two users, each owning a home; optionally every user may read (and list) the other's collections."""
+def owner_world(rng, open_reads=False, deep=False):
+    """Two users, each owning a home; optionally every user may read (and list) the other's collections.
+    deep: the owner may also create plain collections below the home and collections inside those."""
     paths = [(), (10,), (11,), (10, 20), (10, 21), (10, 22), (11, 20), (11, 21), (11, 22)]
+    if deep:
+        paths += [(10, 20, 21), (10, 22, 20), (10, 20, 22)]
     pols = [(None, {p: "" for p in paths})]
     for ui, u in ((1, 10), (2, 11)):
         t = {}
@@ -71,7 +74,7 @@ def owner_world(rng, open_reads=False):
             if p == ():
                 t[p] = "R"
             elif p[0] == u:
-                t[p] = "RW" if len(p) == 1 else "rw"
+                t[p] = "RW" if len(p) == 1 else ("RWrw" if deep else "rw")
             else:
                 t[p] = ("R" if len(p) == 1 else "r") if open_reads else ""
         pols.append((u, t))
@@ -451,6 +454,8 @@ Definition pred_eqb (a b : cstore * list cresp * list (option cresp)) : bool :=
 Definition ser_case (c : sched_case) (o : cstore * list cresp * list (option cresp)) : bool :=
   let '(w, setup, rs, turns) := c in
   serialisable w setup rs (map (fun x => match x with Some r => r | None => (S500, CPNone) end) (snd o)) (fst (fst o)).
+Definition both_ok (c : sched_case) (o : cstore * list cresp * list (option cresp)) : bool :=
+  pred_eqb (run_sched c) o && ser_case c o.
 Definition hist_case := (cworld * list ureq * list op * cstore)%type.
-Definition lin_case (c : hist_case) : N := let '(w, setup, ops, st) := c in lin_verdict w setup ops st 200000.
+Definition lin_case (c : hist_case) : N := let '(w, setup, ops, st) := c in lin_verdict w setup ops st 20000.
 """
